@@ -12,7 +12,7 @@ CONSTANTS
   MaxInstr = 3
   MaxTx = 3
   SupplyCap = 8
-  DataVals = {1}
+  DataVals = {7}
   InitLedgers <- InitFN
 VIEW View
 INVARIANTS TypeOK SupplyMatches InTxSupply NonNegative CommittedIsPre InTxConservation NoEmptyWorktopBucket
